@@ -47,7 +47,10 @@ def build(s, copied, shift=0):
     # several hidden layers: a LIST of different activations (the fast and the plain trunk must apply them alike)
     acts = Square() if len(s["th"]) < 2 else [Square()] + [Ident()] * (len(s["th"]) - 1)
     trunk = tp.models.FCTrunkNet(T, hidden=tuple(s["th"]), activations=acts, trunk_input_copied=copied)
-    branch = tp.models.FCBranchNet(Fs, disc, hidden=tuple(s["bh"]), activations=Ident())
+    if s.get("bk") == "conv":      # ConvBranchNet1D: (batch, channels, length) convolution that keeps the length, then FC layers
+        branch = tp.models.ConvBranchNet1D(Fs, disc, nn.Conv1d(1, 1, kernel_size=3, padding=1), hidden=tuple(s["bh"]), activations=Ident())
+    else:
+        branch = tp.models.FCBranchNet(Fs, disc, hidden=tuple(s["bh"]), activations=Ident())
     model = tp.models.DeepONet(trunk, branch, U, output_neurons=s["neurons"]).double()
     return model, T, Fs, U
 
